@@ -138,7 +138,7 @@ theorem invL_observeTerm {N s s' n t} (h : InvL N s) (hs : step N s (.observeTer
   · rename_i hg
     injection hs with hs; subst hs
     refine invL_frame h rfl rfl (fun m hm _ => hm) ?_
-    exact nodeL_setNode (nodeL_adopt _ _ hg.2)
+    exact nodeL_setNode (nodeL_adopt _ _ hg)
   · cases hs
 
 theorem invL_lose {N s s' m} (h : InvL N s) (hs : step N s (.lose m) = some s') : InvL N s' := by
@@ -360,7 +360,7 @@ theorem invL_sendAppend {N s s' n dst prev k} (h : InvL N s) (he : InvE N s)
   simp only [step] at hs
   split at hs
   · rename_i hg
-    obtain ⟨_, _, _, hrole, hprev⟩ := hg
+    obtain ⟨_, _, hrole, hprev⟩ := hg
     injection hs with hs; subst hs
     have hll := h.ldr_log n hrole
     have hpos := (he.self_vote n (by rw [hrole]; decide)).2.2
@@ -392,7 +392,7 @@ theorem invL_sendSnapshot {N s s' n dst k} (h : InvL N s) (he : InvE N s)
   simp only [step] at hs
   split at hs
   · rename_i hg
-    obtain ⟨_, _, _, hrole, hka, hkl⟩ := hg
+    obtain ⟨_, _, hrole, hka, hkl⟩ := hg
     injection hs with hs; subst hs
     have hll := h.ldr_log n hrole
     have hpos := (he.self_vote n (by rw [hrole]; decide)).2.2
@@ -611,7 +611,7 @@ theorem invL_recvAppend {N s s' n m} (h : InvL N s) (hs : step N s (.recvAppend 
   · rename_i t ldr dst prev prevTerm es c
     split at hs
     · rename_i hg
-      obtain ⟨hnN, rfl, hmem⟩ := hg
+      obtain ⟨rfl, hmem⟩ := hg
       split at hs
       · injection hs with hs; subst hs
         refine invL_frame h rfl rfl ?_ (fun k => NodeL.refl _)
@@ -664,7 +664,7 @@ theorem invL_recvSnapshot {N s s' n m} (h : InvL N s) (hs : step N s (.recvSnaps
   · rename_i t ldr dst k kTerm c pfx
     split at hs
     · rename_i hg
-      obtain ⟨hnN, rfl, hmem⟩ := hg
+      obtain ⟨rfl, hmem⟩ := hg
       split at hs
       · injection hs with hs; subst hs
         refine invL_frame h rfl rfl ?_ (fun k => NodeL.refl _)
@@ -831,7 +831,7 @@ theorem invA_step {N : Nat} {s s' : State} {a : Action} (h : InvA s) (hL : InvL 
         split at hs
         · injection hs with hs; subst hs; exact h
         · injection hs with hs; subst hs
-          have hkc := (hL.msg_snap _ _ _ _ _ _ _ hg.2.2).2.2.2.1
+          have hkc := (hL.msg_snap _ _ _ _ _ _ _ hg.2).2.2.2.1
           apply invA_setNode h
           have := h n
           split
@@ -844,10 +844,25 @@ theorem invA_step {N : Nat} {s s' : State} {a : Action} (h : InvA s) (hL : InvL 
     split at hs
     · injection hs with hs; subst hs; exact h
     · cases hs
+  | restart n c a =>
+    simp only [step] at hs
+    split at hs
+    · rename_i hg
+      injection hs with hs; subst hs
+      exact invA_setNode h (by simpa using hg.1)
+    · cases hs
 
 end PSO.Raft
 
 namespace PSO.Raft
+
+theorem invL_restart {N s s' n c a} (h : InvL N s) (hs : step N s (.restart n c a) = some s') : InvL N s' := by
+  simp only [step] at hs
+  split at hs
+  · injection hs with hs; subst hs
+    refine invL_frame h rfl rfl (fun m hm _ => hm) ?_
+    exact nodeL_setNode ⟨rfl, Nat.le_refl _, Or.inr rfl⟩
+  · cases hs
 
 theorem invL_step {N : Nat} {s s' : State} {a : Action} (h : InvL N s) (he : InvE N s) (ha : InvA s)
     (hs : step N s a = some s') : InvL N s' := by
@@ -866,6 +881,7 @@ theorem invL_step {N : Nat} {s s' : State} {a : Action} (h : InvL N s) (he : Inv
   | sendSnapshot n dst k => exact invL_sendSnapshot h he (ha n) hs
   | recvSnapshot n m => exact invL_recvSnapshot h hs
   | lose m => exact invL_lose h hs
+  | restart n c a => exact invL_restart h hs
 
 theorem invELA_reachable {N : Nat} {s : State} (h : Reachable N s) : InvE N s ∧ InvL N s ∧ InvA s := by
   induction h with
